@@ -638,8 +638,42 @@ func ruleNIter(w *World, r *Report) {
 			}
 		})
 	}
-	if ncons < 2 {
-		r.bad("N-ITER", "constructors", "", fmt.Sprintf("%d NodeIterator constructors found, expected Select and Evaluate", ncons))
+	// every exported method of the expression type that can hand out an
+	// iterator either constructs one (judged above) or obtains it from a
+	// function that does
+	cons := map[*ssa.Function]bool{}
+	for _, fn := range w.AllFuncs {
+		eachInstr(fn, false, func(_ *ssa.Function, in ssa.Instruction) {
+			if a, ok := in.(*ssa.Alloc); ok {
+				if pt, _ := a.Type().(*types.Pointer); pt != nil && pt.Elem() == types.Type(it) {
+					cons[fn] = true
+				}
+			}
+		})
+	}
+	entries := 0
+	for _, fn := range w.AllFuncs {
+		if fn.Parent() != nil || fn.Signature.Recv() == nil || fn.Object() == nil || !fn.Object().Exported() {
+			continue
+		}
+		if n, ok := derefNamed(fn.Signature.Recv().Type()); !ok || n != en {
+			continue
+		}
+		if fn.Signature.Params().Len() != 1 || !w.isNavType(fn.Signature.Params().At(0).Type()) {
+			continue
+		}
+		reaches := cons[fn]
+		for _, c := range w.pkgCallees(fn) {
+			if cons[c] {
+				reaches = true
+			}
+		}
+		if reaches {
+			entries++
+		}
+	}
+	if ncons < 1 || entries < 2 {
+		r.bad("N-ITER", "constructors", "", fmt.Sprintf("%d NodeIterator constructors serving %d entry points found, expected Select and Evaluate to build their iterator (directly or through one constructor)", ncons, entries))
 	}
 	// (3) leaf producers
 	for _, qt := range w.census.Types {
